@@ -215,10 +215,15 @@ pub fn run_scaled(ctx: &mut Ctx, n_model: usize, n_big: usize, exhaustive_subset
 
     // (e) thousands of originals and 2 .. 8 recovery shards (the everyday storage shape): few erasures among very many
     //     work positions — every position is one evaluation point of the erasure locator
-    for n in 0..(n_big / 8).max(3) {
-        let k = ctx.rng.range(3000, 60000);
-        let r = ctx.rng.range(2, 8);
-        let kind = *ctx.rng.pick(&["high", "default", "rs"]);
+    for n in 0..(n_big / 8).max(3) + (n_big / 8).max(3) {
+        let edge = n >= (n_big / 8).max(3);
+        // … and configurations exactly ON the edge of the envelope (power-of-two side + other side = 65536), where the
+        // last work position is 65535 and an exclusive end is 65536
+        let (k, r) = if edge {
+            let p = *ctx.rng.pick(&[2usize, 256, 4096, 16384]);
+            if ctx.rng.chance(1, 2) { (ctx.rng.range(p / 2 + 1, p), 65536 - p) } else { (65536 - p, ctx.rng.range(p / 2 + 1, p)) }
+        } else { (ctx.rng.range(3000, 60000), ctx.rng.range(2, 8)) };
+        let kind = if edge { *ctx.rng.pick(&["default", "rs"]) } else { *ctx.rng.pick(&["high", "default", "rs"]) };
         let engine = if kind == "rs" { "default" } else { *ctx.rng.pick(&["nosimd", "ssse3", "avx2", "default"]) };
         let cfg = Cfg { kind: kind.into(), engine: engine.into(), k, r, sb: 2 };
         let originals = gen_originals(&mut ctx.rng, cfg.k, cfg.sb);
@@ -227,13 +232,16 @@ pub fn run_scaled(ctx: &mut Ctx, n_model: usize, n_big: usize, exhaustive_subset
             ctx.oracle_fail(format!("encode failed for supported {}", cfg.tag()), &c, None);
             continue;
         };
-        let lost = ctx.rng.range(if n % 2 == 0 { r } else { 1 }, r);
-        let miss = ctx.rng.subset(k, lost);
+        let lost = if edge { ctx.rng.range(1, 3.min(k).min(r)) } else { ctx.rng.range(if n % 2 == 0 { r } else { 1 }, r) };
+        let mut miss = ctx.rng.subset(k, lost);
+        if edge && ctx.rng.chance(1, 2) { miss[0] = 0; miss.sort_unstable(); miss.dedup(); }
+        let lost = miss.len();
         let go: Vec<usize> = (0..k).filter(|i| !miss.contains(i)).collect();
-        let gr = ctx.rng.subset(r, lost);
+        let mut gr = ctx.rng.subset(r, lost);
+        if edge && !gr.contains(&(r - 1)) && ctx.rng.chance(1, 2) { gr[0] = r - 1; }
         let order: Vec<(bool, usize)> =
             go.iter().map(|i| (true, *i)).chain(gr.iter().map(|i| (false, *i))).collect();
-        ctx.count("loss_pattern", "many-originals+few-recovery");
+        ctx.count("loss_pattern", if edge { "envelope-edge" } else { "many-originals+few-recovery" });
         ctx.count("kind", &cfg.kind);
         ctx.count("work_class", "<=65536");
         let mut case = roundtrip_case(&format!("many-originals-{}", n), &cfg, &cfg, &originals, &recovery, &order);
